@@ -17,8 +17,9 @@ from fractions import Fraction
 
 import z3
 
-from . import core
+from . import core, lin as L
 from .core import Ctx, SymBool
+from .lin import Lin
 
 
 def _is1(d):
@@ -26,49 +27,51 @@ def _is1(d):
 
 
 def lift(x):
-    """-> (coef, exponent, den) or None (non finite) or NotImplemented"""
+    """-> (coef: Lin, exponent: int, den: 1 | Lin) or None (non finite) or NotImplemented"""
     if isinstance(x, SymDec):
         return (x.c, x.x, x.d)
     if isinstance(x, bool):
         return NotImplemented
     if isinstance(x, int):
-        return (x, 0, 1)
+        return (Lin({}, x), 0, 1)
     from .num import SymInt
     if isinstance(x, SymInt):
-        return (x.e, 0, 1)
+        return (L.lin(x.e), 0, 1)
     if isinstance(x, Decimal):
         if not x.is_finite():
             return None
         sign, digits, exp = x.as_tuple()
         c = int("".join(map(str, digits)) or "0")
-        return (-c if sign else c, exp, 1)
+        return (Lin({}, -c if sign else c), exp, 1)
     if isinstance(x, float):
         f = Fraction(x)
-        return (f.numerator, 0, f.denominator)
+        return (Lin({}, f.numerator), 0, 1 if f.denominator == 1 else Lin({}, f.denominator))
     if isinstance(x, Fraction):
-        return (x.numerator, 0, x.denominator)
+        return (Lin({}, x.numerator), 0, 1 if x.denominator == 1 else Lin({}, x.denominator))
     return NotImplemented
 
 
 def _same_den(da, db):
-    if isinstance(da, int) and isinstance(db, int):
-        return da == db
-    if isinstance(da, int) or isinstance(db, int):
-        return False
-    return da.eq(db)
+    if _is1(da) or _is1(db):
+        return _is1(da) and _is1(db)
+    return da.t == db.t and da.k == db.k
 
 
 def _align(a, b):
     """numerators na, nb over a common positive denominator d and common exponent x"""
     (ca, xa, da), (cb, xb, db) = a, b
     x = min(xa, xb)
-    na = ca * 10 ** (xa - x) if xa != x else ca
-    nb = cb * 10 ** (xb - x) if xb != x else cb
+    na = L.scale(ca, 10 ** (xa - x)) if xa != x else ca
+    nb = L.scale(cb, 10 ** (xb - x)) if xb != x else cb
     if _is1(da) and _is1(db):
         return na, nb, x, 1
     if _same_den(da, db):
         return na, nb, x, da
-    return na * db, nb * da, x, da * db
+    if _is1(da):
+        return L.mul(na, db), nb, x, db
+    if _is1(db):
+        return na, L.mul(nb, da), x, da
+    return L.mul(na, db), L.mul(nb, da), x, L.mul(da, db)
 
 
 _INF_CMP = {"lt": lambda pos: pos, "le": lambda pos: pos, "gt": lambda pos: not pos, "ge": lambda pos: not pos,
@@ -85,24 +88,32 @@ def _cmp(op):
         if o is NotImplemented:
             return NotImplemented
         a, b, _, _ = _align((self.c, self.x, self.d), o)
-        if isinstance(a, int) and isinstance(b, int):
-            return {"lt": a < b, "le": a <= b, "gt": a > b, "ge": a >= b, "eq": a == b, "ne": a != b}[op]
-        e = {"lt": a < b, "le": a <= b, "gt": a > b, "ge": a >= b, "eq": a == b, "ne": a != b}[op]
+        e = L.cmp(op, a, b)
+        if isinstance(e, bool):
+            return e
         return SymBool(e)
     return f
 
 
 def fdiv(c, k):
-    """floor(c / k) for k > 0 (python int or z3 term) through a fresh quotient variable"""
-    if isinstance(c, int) and isinstance(k, int):
-        return c // k
+    """floor(c / k) for k > 0 (Lin or int) through a fresh quotient variable; returns a Lin"""
+    c, k = L.lin(c), L.lin(k)
+    if c.is_const() and k.is_const():
+        return Lin({}, c.k // k.k)
     ctx = Ctx.cur
-    q = ctx.fresh("q")
-    ctx.add(z3.And(k * q <= c, c < k * q + k))
+    if k.is_const() and USE_DIV:
+        # z3's integer div by a constant (floor for a positive divisor): no fresh variable, and the cached model
+        # keeps evaluating conditions that mention the quotient
+        return Lin.atom(c.z() / k.k)
+    q = L.lin(ctx.fresh("q"))
+    kq = L.mul(k, q)
+    ctx.add(z3.And(L.cmp("le", kq, c), L.cmp("lt", c, L.add(kq, k))))
     return q
 
 
 _SNAN = "sNaN"
+import os as _os
+USE_DIV = _os.environ.get("SYMX_DIV", "1") == "1"
 
 
 class SymDec(Decimal):
@@ -110,9 +121,9 @@ class SymDec(Decimal):
 
     def __new__(cls, c, x, d=1):
         self = Decimal.__new__(cls, _SNAN)
-        self.c = c
+        self.c = c if isinstance(c, Lin) else L.lin(c)
         self.x = x
-        self.d = d
+        self.d = d if (_is1(d) or isinstance(d, Lin)) else L.lin(d)
         return self
 
     # ---- comparisons / truth
@@ -125,21 +136,21 @@ class SymDec(Decimal):
     __hash__ = None
 
     def __bool__(self):
-        if isinstance(self.c, int):
-            return self.c != 0
-        return Ctx.cur.branch(self.c != 0)
+        if self.c.is_const():
+            return self.c.k != 0
+        return Ctx.cur.branch(L.cmp("ne", self.c, Lin({}, 0)))
 
     # ---- arithmetic
     def __neg__(self):
-        return SymDec(-self.c, self.x, self.d)
+        return SymDec(L.neg(self.c), self.x, self.d)
 
     def __pos__(self):
         return self
 
     def __abs__(self):
-        if isinstance(self.c, int):
-            return SymDec(abs(self.c), self.x, self.d)
-        return SymDec(z3.If(self.c >= 0, self.c, -self.c), self.x, self.d)
+        if self.c.is_const():
+            return SymDec(Lin({}, abs(self.c.k)), self.x, self.d)
+        return SymDec(L.ite(L.cmp("ge", self.c, Lin({}, 0)), self.c, L.neg(self.c)), self.x, self.d)
 
     def _bin(self, o, f, swap=False):
         if isinstance(o, Decimal) and not isinstance(o, SymDec) and not o.is_finite():
@@ -151,14 +162,14 @@ class SymDec(Decimal):
         return SymDec(f(b, a) if swap else f(a, b), x, d)
 
     def __add__(self, o):
-        return self._bin(o, lambda a, b: a + b)
+        return self._bin(o, L.add)
     __radd__ = __add__
 
     def __sub__(self, o):
-        return self._bin(o, lambda a, b: a - b)
+        return self._bin(o, L.sub)
 
     def __rsub__(self, o):
-        return self._bin(o, lambda a, b: a - b, swap=True)
+        return self._bin(o, L.sub, swap=True)
 
     def __mul__(self, o):
         o = lift(o)
@@ -169,37 +180,41 @@ class SymDec(Decimal):
         elif _is1(self.d):
             d = o[2]
         else:
-            d = self.d * o[2]
-        return SymDec(self.c * o[0], self.x + o[1], d)
+            d = L.mul(self.d, o[2])
+        return SymDec(L.mul(self.c, o[0]), self.x + o[1], d)
     __rmul__ = __mul__
 
     @staticmethod
     def _div(num, den):
         (cn, xn, dn), (cd, xd, dd) = num, den
         Ctx.cur.inexact = True
-        if isinstance(cd, int):
-            if cd == 0:
+        if cd.is_const():
+            k = cd.k
+            if k == 0:
                 raise decimal.DivisionByZero()
-            sgn = 1 if cd > 0 else -1
-            n = cn * sgn if _is1(dd) else cn * dd * sgn
-            k = abs(cd)
-            d = dn if k == 1 else (k if _is1(dn) else dn * k)
-            if k != 1 and _is1(dn):
-                # division by a concrete power of ten (x/100) stays exact with a shifted exponent
+            sgn = 1 if k > 0 else -1
+            n = L.scale(cn, sgn) if _is1(dd) else L.scale(L.mul(cn, dd), sgn)
+            k = abs(k)
+            if _is1(dn):
                 p = _pow10(k)
                 if p is not None:
+                    # division by a concrete power of ten (x / 100) stays exact with a shifted exponent
                     return SymDec(n, xn - xd - p, 1)
+                d = 1 if k == 1 else Lin({}, k)
+            else:
+                d = L.scale(dn, k)
             return SymDec(n, xn - xd, d)
         ctx = Ctx.cur
-        pos = ctx.branch(cd > 0)
+        zero = Lin({}, 0)
+        pos = ctx.branch(L.cmp("gt", cd, zero))
         if not pos:
-            if not ctx.branch(cd < 0):
-                if isinstance(cn, int) and cn == 0:
+            if not ctx.branch(L.cmp("lt", cd, zero)):
+                if cn.is_const() and cn.k == 0:
                     raise decimal.InvalidOperation()
                 raise decimal.DivisionByZero()
-            cd, cn = -cd, -cn
-        n = cn if _is1(dd) else cn * dd
-        d = cd if _is1(dn) else dn * cd
+            cd, cn = L.neg(cd), L.neg(cn)
+        n = cn if _is1(dd) else L.mul(cn, dd)
+        d = cd if _is1(dn) else L.mul(dn, cd)
         return SymDec(n, xn - xd, d)
 
     def __truediv__(self, o):
@@ -224,41 +239,44 @@ class SymDec(Decimal):
             return _trap("quantize(symbolic exponent)")(self, exp)
         p = Decimal(exp).as_tuple().exponent       # target exponent
         if self.x >= p and _is1(self.d):
-            return SymDec(self.c * 10 ** (self.x - p) if self.x != p else self.c, p)
+            return SymDec(L.scale(self.c, 10 ** (self.x - p)) if self.x != p else self.c, p)
         if self.x >= p:
-            c, k = self.c * 10 ** (self.x - p), self.d
+            c, k = L.scale(self.c, 10 ** (self.x - p)), self.d
         else:
-            c, k = self.c, self.d * 10 ** (p - self.x)
+            c, k = self.c, (Lin({}, 10 ** (p - self.x)) if _is1(self.d) else L.scale(self.d, 10 ** (p - self.x)))
         if rounding is None:
             rounding = decimal.getcontext().rounding
-        fl = fdiv(c, k)
-        rem = c - k * fl   # in [0, k)
-        if isinstance(fl, int) and isinstance(rem, int):
-            neg = c < 0
+        if c.is_const() and k.is_const():
+            cc, kk = c.k, k.k
+            fl, rem = cc // kk, cc % kk
+            neg = cc < 0
             if rounding == decimal.ROUND_DOWN:
                 r = fl if (not neg or rem == 0) else fl + 1
             elif rounding == decimal.ROUND_UP:
                 r = fl + 1 if (not neg and rem != 0) else fl
             elif rounding == decimal.ROUND_HALF_EVEN:
-                r = fl if 2 * rem < k else (fl + 1 if 2 * rem > k else (fl if fl % 2 == 0 else fl + 1))
+                r = fl if 2 * rem < kk else (fl + 1 if 2 * rem > kk else (fl if fl % 2 == 0 else fl + 1))
             else:
                 raise NotImplementedError(rounding)
-            return SymDec(r, p)
+            return SymDec(Lin({}, r), p)
+        fl = fdiv(c, k)
+        rem = L.sub(c, L.mul(k, fl))   # in [0, k)
+        zc_, zfl, zrem, zk = c.z(), fl.z(), rem.z(), k.z()
         if rounding == decimal.ROUND_DOWN:        # towards zero
-            r = z3.If(z3.Or(c >= 0, rem == 0), fl, fl + 1)
+            r = z3.If(z3.Or(zc_ >= 0, zrem == 0), zfl, zfl + 1)
         elif rounding == decimal.ROUND_UP:        # away from zero
-            r = z3.If(z3.And(c >= 0, rem != 0), fl + 1, fl)
+            r = z3.If(z3.And(zc_ >= 0, zrem != 0), zfl + 1, zfl)
         elif rounding == decimal.ROUND_HALF_EVEN:
-            r = z3.If(2 * rem < k, fl, z3.If(2 * rem > k, fl + 1, z3.If(fl % 2 == 0, fl, fl + 1)))
+            r = z3.If(2 * zrem < zk, zfl, z3.If(2 * zrem > zk, zfl + 1, z3.If(zfl % 2 == 0, zfl, zfl + 1)))
         elif rounding == decimal.ROUND_HALF_UP:
-            r = z3.If(2 * rem < k, fl, z3.If(2 * rem > k, fl + 1, z3.If(c >= 0, fl + 1, fl)))
+            r = z3.If(2 * zrem < zk, zfl, z3.If(2 * zrem > zk, zfl + 1, z3.If(zc_ >= 0, zfl + 1, zfl)))
         elif rounding == decimal.ROUND_FLOOR:
-            r = fl
+            r = zfl
         elif rounding == decimal.ROUND_CEILING:
-            r = z3.If(rem == 0, fl, fl + 1)
+            r = z3.If(zrem == 0, zfl, zfl + 1)
         else:
             raise NotImplementedError(rounding)
-        return SymDec(r, p)
+        return SymDec(Lin.atom(r), p)
 
     def is_finite(self):
         return True
@@ -279,7 +297,7 @@ class SymDec(Decimal):
         raise TypeError("SymDec cannot be pickled")
 
     def __repr__(self):
-        return "SymDec(%se%d/%s)" % (self.c, self.x, self.d)
+        return "SymDec(%se%d/%s)" % (self.c.z(), self.x, self.d if _is1(self.d) else self.d.z())
 
     def __str__(self):
         from .strtok import render_token
@@ -293,9 +311,12 @@ class SymDec(Decimal):
 
     # ---- helpers for the harness
     def value_in(self, model):
-        c = core._model_value(model, self.c) if not isinstance(self.c, int) else self.c
-        d = core._model_value(model, self.d) if not isinstance(self.d, int) else self.d
+        c = L.value(model, self.c)
+        d = 1 if _is1(self.d) else L.value(model, self.d)
         return Fraction(c) * Fraction(10) ** self.x / Fraction(d)
+
+    def is_concrete(self):
+        return self.c.is_const() and (_is1(self.d) or self.d.is_const())
 
     def on_grid(self, prec):
         """is the value a multiple of 10**-prec ?  (python bool or SymBool)"""
@@ -304,9 +325,9 @@ class SymDec(Decimal):
         if self.x >= -prec:
             return True
         m = 10 ** (-prec - self.x)
-        if isinstance(self.c, int):
-            return self.c % m == 0
-        return SymBool(self.c % m == 0)
+        if self.c.is_const():
+            return self.c.k % m == 0
+        return SymBool(self.c.z() % m == 0)
 
 
 def _pow10(k):
@@ -354,11 +375,7 @@ def ite(cond, a, b):
         return a if cond else b
     la, lb = lift(a), lift(b)
     na, nb, x, d = _align(la, lb)
-    return SymDec(z3.If(core._b(cond), _z(na), _z(nb)), x, d)
-
-
-def _z(v):
-    return z3.IntVal(v) if isinstance(v, int) else v
+    return SymDec(L.ite(core._b(cond), na, nb), x, d)
 
 
 def smax(*vals):
@@ -423,7 +440,7 @@ def D(x):
         return x
     from .num import SymReal, SymInt
     if isinstance(x, SymInt):
-        return SymDec(x.e, 0)
+        return SymDec(L.lin(x.e), 0)
     if isinstance(x, SymReal):
         return x.as_dec()
     return Decimal(x)
